@@ -842,11 +842,12 @@ class FileHashStore(HashStore):
 
                 # Add pid refs file to be permanently deleted
                 pid_ref_abs_path = self._get_hashstore_pid_refs_path(pid)
+                # Read the cid before the pid refs file is renamed
+                pid_refs_cid = self._read_small_file_content(pid_ref_abs_path)
                 objects_to_delete.append(
                     self._rename_path_for_deletion(pid_ref_abs_path)
                 )
                 # Remove pid from cid refs file
-                pid_refs_cid = self._read_small_file_content(pid_ref_abs_path)
                 try:
                     self._synchronize_object_locked_cids(pid_refs_cid)
 
@@ -854,6 +855,11 @@ class FileHashStore(HashStore):
                     # Remove if the pid refs is found
                     if self._is_string_in_refs_file(pid, cid_ref_abs_path):
                         self._update_refs_file(cid_ref_abs_path, pid, "remove")
+                        # Delete the cid reference file if it no longer lists any pid
+                        if os.path.getsize(cid_ref_abs_path) == 0:
+                            objects_to_delete.append(
+                                self._rename_path_for_deletion(cid_ref_abs_path)
+                            )
                 finally:
                     self._release_object_locked_cids(pid_refs_cid)
 
